@@ -40,7 +40,7 @@ def build_harness():
     env = dict(os.environ)
     env["CARGO_NET_OFFLINE"] = "true"
     p = subprocess.run(
-        ["cargo", "build", "--offline", "--quiet"],
+        ["cargo", "build", "--offline", "--quiet", "--bin", "vh"],
         cwd=HARNESS, env=env, stdout=subprocess.PIPE, stderr=subprocess.STDOUT, text=True)
     if p.returncode != 0:
         tail = "\n".join(l for l in p.stdout.splitlines() if "warning" not in l)[-4000:]
